@@ -172,6 +172,18 @@ func probe(ctx context.Context) *callRec {
 		}
 	}
 	if rec.ep.next != nil {
+		if rec.ep.spec.Forward {
+			if md, ok := metadata.FromIncomingContext(ctx); ok {
+				fw := metadata.MD{}
+				for k, v := range md {
+					if strings.HasPrefix(k, ":") || strings.HasPrefix(k, "grpc-") || k == "content-type" || k == "user-agent" || k == "te" {
+						continue
+					}
+					fw[k] = append([]string(nil), v...)
+				}
+				ctx = metadata.NewOutgoingContext(ctx, fw)
+			}
+		}
 		if err := rec.ep.next(ctx); err != nil {
 			rec.NextErr = err.Error()
 		}
